@@ -100,20 +100,22 @@ Definition parse_rw (s : text) : option Z :=
 
 Definition key_or_err (o : option Z) : res Z := match o with Some v => Ok v | None => Err E_KEY end.
 
-(* s[i] compared with the special letter, 'x', '-' *)
-Definition xbit (c : option Z) (special : Z) (vs vx : Z) : res Z :=
+(* s[i] compared with the special letter ('s'/'t': special bit + execute), 'x', the upper-case
+   letter ('S'/'T': special bit without execute — accepted since the F13b fix), '-' *)
+Definition xbit (c : option Z) (special upper : Z) (vs vx vu : Z) : res Z :=
   match c with
   | None => Err E_INDEX
-  | Some c => if c =? special then Ok vs else if c =? 120 then Ok vx else if c =? 45 then Ok 0 else Err E_VALUE
+  | Some c => if c =? special then Ok vs else if c =? 120 then Ok vx else if c =? upper then Ok vu
+              else if c =? 45 then Ok 0 else Err E_VALUE
   end.
 
 Definition parse_unix_mode (s : text) : res Z :=
   bind (key_or_err (parse_rw (slice 0 2 s))) (fun u =>
   bind (key_or_err (parse_rw (slice 3 5 s))) (fun g =>
   bind (key_or_err (parse_rw (slice 6 8 s))) (fun o =>
-  bind (xbit (char_at 2 s) 115 2112 64) (fun xu =>      (* 0o4100, 0o0100 *)
-  bind (xbit (char_at 5 s) 115 1032 8) (fun xg =>       (* 0o2010, 0o0010 *)
-  bind (xbit (char_at 8 s) 116 512 1) (fun xo =>        (* 0o1000 (sic, without 0o0001), 0o0001 *)
+  bind (xbit (char_at 2 s) 115 83 2112 64 2048) (fun xu =>   (* 0o4100, 0o0100, 0o4000 *)
+  bind (xbit (char_at 5 s) 115 83 1032 8 1024) (fun xg =>    (* 0o2010, 0o0010, 0o2000 *)
+  bind (xbit (char_at 8 s) 116 84 512 1 512) (fun xo =>      (* 0o1000 (sic, without 0o0001), 0o0001, 0o1000 *)
   Ok (Z.lor (Z.lor (Z.lor (u * 64) (g * 8)) o) (Z.lor (Z.lor xu xg) xo)))))))).
 
 (* ---- Client.parse_list_line_unix ---- *)
